@@ -197,7 +197,8 @@ props = [json.loads(l) for l in open(V / "properties.jsonl")]
 EXTRA_TEXT = {
     "C01": " Added: the snapping stage is now an exact Lean model (Model/SnapLoop.lean, tied to the real snap_traces and to the loop inside branches_and_nodes by stream S06-snappass); "
            "C01_snap_stage_identity proves it is the identity (no repeat pass, no raise) on every map whose decidable quietMap holds, and the oracle evaluates quietMap on the clipped "
-           "pieces of every valid map of S01 (all quiet). The node-table and branch-label LOOPS are regenerated as well (C05_generated_*).",
+           "pieces of every valid map of S01 (all quiet). The node-table and branch-label LOOPS are regenerated as well (C05_generated_*), and so is the whole snapping pass "
+           "(C06_generated_snap_traces): the stage C01_snap_stage_identity speaks about is regenerated code.",
     "C04": " Added streams: mirror-image traces inside one bounding box; S04-stubs (stubs of 1.05-3 x snap at a host's tip must be branches: exact total length). "
            "C04_pass_stays_within_threshold: one snapping pass adds to a trace only ends strictly within the threshold of it as it was before the pass; C04_cumulative_drag_witness: "
            "the bound is per pass, not cumulative -- known finding F25 (stacked input, target dragged 1.63 x snap), reported as KNOWN-FINDING and recognised by its trigger region only.",
@@ -217,13 +218,17 @@ EXTRA_TEXT = {
            "(C06_generated_*). Stream S06-snappass compares one real snap_traces pass and the real loop (recorder around snap_traces inside branches_and_nodes) with the model "
            "coordinate for coordinate and decides C06's own words (boundary ends not snapped, far ends split nothing) on every disagreement. "
            "insert_point_to_linestring and determine_insert_approach are regenerated whole (sorted/index/pop/insert) and C06_generated_insert_point proves they equal the insertion model "
-           "Snap.insertGeo for every polyline with at least two vertices; S06-generated runs the compiled regenerated insertion against the real function.",
+           "Snap.insertGeo for every polyline with at least two vertices; S06-generated runs the compiled regenerated insertion against the real function. "
+           "simple_snap, resolve_trace_candidates, snap_trace_simple, snap_others_to_trace and snap_traces are regenerated whole as well: C06_generated_simple_snap and "
+           "C06_generated_snap_traces prove the regenerated pass equals SnapL.snapPass (results, change flag, both ValueErrors, either index order), so the entire snapping stage is "
+           "regenerated code; S06-snappass also runs the compiled regenerated pass on every case.",
     "C09": " Added: Validation._validate is regenerated and C09_generated_validate_step proves it equals the model step Tval.validateOne for every validator behaviour; "
            "C09_empty_area covers the documented EMPTY TARGET AREA exit (repaired defect F23); S09 includes duplicate index labels and areas void of traces.",
     "C10": " Added: the whole UnderlappingSnapValidator.validation_method (both loops, well-snapped skip, window, first hit, class attribute) is regenerated and proved equal to the "
            "hand-written decision Spec.underlapVerdict (C10_generated_underlap_eq_spec); C10_underlap_silent_iff: a trace passes exactly when every end is well snapped or has no candidate "
            "in (t, t*m). Stream S10-stacking sweeps the stacking window deterministically (alongside length x orientation x start x offsets to 1e7 x thresholds), S10-sharp the direction-change limit of SHARP TURNS. "
-           "TargetAreaSnapValidator.validation_method and simple_underlapping_checks are regenerated as well (C10_generated_area_validation, C10_simple_underlapping_checks).",
+           "TargetAreaSnapValidator.validation_method and simple_underlapping_checks are regenerated as well (C10_generated_area_validation, C10_simple_underlapping_checks); "
+           "stream S10-generated runs both compiled regenerated validators against the real methods with the geometric sub-decisions scripted on both sides.",
     "C12": " Added: determine_intersect and the pair loop of determine_crosscut_abutting_relationships are regenerated; C12_generated_determine_intersect (= Rel.intersectOf, all cases) and "
            "C12_generated_rows (exactly one row per pair of sets that both contain traces, in combinations order, each from its own pair) hold for all inputs.",
     "C13": " Added: C13_underlap_attribute over the regenerated stateful validator (a passing call leaves the class attribute untouched; verdict and written string never depend on its old "
